@@ -157,8 +157,11 @@ CLAIMED = {
               "comment lines in every column). Every generated deck is respelled three times by an independent "
               "restyler (case, blanks/tabs, continuations, comments, message block, Fortran numbers, nR shorthand) and "
               "the written files must be identical; data-card shorthand and number spellings rest on the theorems of "
-              "C12/C09. Not proved: block splitting (get_block_positions), letter case (lower-casing is done per "
-              "parser), the cell/surface/data card split regexes — restyling differential only."),
+              "C12/C09. Blocks: on the line-level model of get_block_positions (compared with the code on random texts) "
+              "any non-empty run of blank lines — empty, blanks, tabs — is the same delimiter (delimiter_immaterial) and a "
+              "leading message block leaves title, cell, surface and data blocks unchanged (message_block_immaterial). "
+              "Not proved: letter case (lower-casing is done per parser) and the cell/surface/data card split regexes — "
+              "restyling differential only."),
         design_ref='§8 C14'),
     'C15': dict(
         technique='Lean 4 proof (fold invariant of parse_keywords: the later keyword wins; induction over LIKE chains) + model↔code correspondence on option token lists + differential conversion of LIKE decks against their expansion',
